@@ -36,7 +36,7 @@ def rule_unsafe_bounds(cx, tier):
                any((c.pretty or "").endswith("get_unchecked") for c in f.calls())]
     require(readers, "R-UNSAFE-BOUNDS: no get_unchecked reader found on StringSlice (as_str changed?)")
     r.analysed = {"constructing_functions": sorted(cx.F.fns[n].qual for n in builders), "unchecked_readers": [f.qual for f in readers]}
-    r.floor("functions constructing a StringSlice", len(builders), 4)
+    r.floor("functions constructing a StringSlice", len(builders), 3)
     unsafe_ctors = set()
     for name, sites in sorted(builders.items()):
         fn = cx.F.fns[name]
@@ -245,7 +245,7 @@ def rule_slice_tail(cx, tier):
                                       f"establishes what the last bytes are: the slice drops a real character, or panics "
                                       f"inside a multi-byte one", fn.file, c.line))
     r.analysed = {"str_slicing_sites": n}
-    r.floor("str slicing sites in the workspace", n, 10)
+    r.floor("str slicing sites in the workspace", n, 7)
     return r
 
 
@@ -464,13 +464,15 @@ def rule_bounds_order(cx, tier):
             ok, why = _ordered(fb, wb.bb, s_e, e_e)
             r.sample({"fn": cx.label(fn), "line": c.line, "start": _short(s_e)[:50], "end": _short(e_e)[:50], "ordered": ok,
                       "why": why})
-            if not ok:
+            if ok is None:
+                r.undecided.append({"fn": cx.label(fn), "line": c.line, "why": why})
+            elif not ok:
                 r.add(Finding("R-BOUNDS-ORDER", cx.label(fn), f"{_short(s_e)[:40]}..{_short(e_e)[:40]}",
                               f"`with_bounds({_short(s_e)[:60]}..{_short(e_e)[:60]}).unwrap()`: nothing in how the bounds are "
                               f"computed makes start <= end ({why}); an inverted range yields None and the unwrap panics",
                               fn.file, c.line))
     r.analysed = {"unwrapped_with_bounds_sites": n}
-    r.floor("unwrapped with_bounds sites in koto_runtime", n, 6)
+    r.floor("unwrapped with_bounds sites in koto_runtime", n, 4)
     return r
 
 
@@ -486,6 +488,7 @@ def _ordered(fb, site_bb, s_e, e_e):
         return True, "start is 0"
     ks = strip_phi(s_e)
     bad = []
+    opaque = []
     for alt in _alternatives(e_e):
         alt = unc(alt)
         if alt[0] == "add" and (strip_phi(unc(alt[1])) == ks or strip_phi(unc(alt[2])) == ks):
@@ -512,9 +515,16 @@ def _ordered(fb, site_bb, s_e, e_e):
                     ok = True
             if ok:
                 continue
+        if alt[0] == "L" and not alt[1].startswith(("len(", "idx(", "count(")):
+            # a named local or a call result (`find(..).map_or(len, |i| start + i)`): its computation is not visible in
+            # the expression tree, so nothing can be said either way
+            opaque.append(_short(alt)[:50])
+            continue
         bad.append(_short(alt)[:50])
     if bad:
         return False, "end can be " + " / ".join(bad) + f", unrelated to start = {_short(s_e)[:50]}"
+    if opaque:
+        return None, "end comes from " + " / ".join(opaque) + ", whose computation the expression tree does not show"
     return True, "every alternative of end is start + n, or a length that start does not exceed"
 
 
